@@ -11,8 +11,10 @@ Interpretation notes (see notes/C18.md):
   (RFC 8445 §5.1.1.1); IPv4 link-local addresses are not excluded by the text.
 * an IPv6 link-local address may back a candidate only when the mDNS name is exposed instead.
 * `::1` and `::` lie in `::/96`, the "IPv4-compatible" block the text excludes.
-* a host candidate that only carries an mDNS name and no resolved IP (UDP mux in mDNS gather mode;
-  class `nm`) reports the placeholder family IPv4: for it only the transport is compared.
+* every candidate is judged on the network type it reports, which must be the one of its real family. (Before the fix
+  of F34 a UDP-mux host candidate in mDNS gather mode carried no address — class `nm` — and reported the placeholder
+  udp4 whatever its listen address; the monitor used to compare only the transport for it. It no longer does: such a
+  candidate must have udp4 enabled, and `IceSpec.C03Gather` rejects a candidate without an address altogether.)
 * with a UDP mux the UDP listeners are the mux's listen addresses: completeness for UDP is stated
   over them, and the filter / port-range clauses do not apply to borrowed sockets.
 * HOST REWRITE RULES. A host candidate then has two addresses: the one its SOCKET is bound to (printed as
@@ -123,8 +125,7 @@ def baseOk (cfg : Config) (ifs : List Iface) (b : Addr) : Bool :=
 /-- soundness of ONE published candidate; first violated clause -/
 def candViolation (cfg : Config) (ifs : List Iface) (c : CandD) : Option String :=
   if !(typesEnabled cfg).contains c.ty then some "candidate type not enabled"
-  else if (if c.addr.cls == .nm then !(netEnabled cfg (NetType.ofTransport c.net.isTCP false) || netEnabled cfg (NetType.ofTransport c.net.isTCP true))
-           else !netEnabled cfg c.net) then
+  else if !netEnabled cfg c.net then
     some (match c.ty with
       | .host => if c.pflag == .M && !c.net.isTCP then "network type not enabled: host candidate borrowed from the UDP mux"
                  else "network type not enabled: host candidate gathered from the interface table"
